@@ -33,8 +33,8 @@ META = {
                   '(39 702).  Replay: the one-call tables in full, two-call tables over reduced pools (quick) / in full '
                   '(thorough), TLC-simulated 4-6 call histories with sampled rows; random apps up to 12 routes / 6 sinks / 3 '
                   'static routes with assembly interleaved with requests.  Route templates have literal and single-field '
-                  'segments only (converters / multi-field segments belong to C01); sink prefixes are literal text, '
-                  '(?P<n>\\d+) and (?P<n>[^/]+) groups.  What a picked static route does with the rest of the path is '
+                  'segments only (converters / multi-field segments belong to C01); sink prefixes are built from literal text, '
+                  'named and unnamed \\d+ / [^/]+ groups, unnamed alternations and trailing optional unnamed groups.  What a picked static route does with the rest of the path is '
                   'modelled only as far as needed to recognise it (C16 owns it); OPTIONS answered by a static route is not '
                   'distinguishable from other 200 + Allow: GET answers.  Trusted: TLC, engine/drivers.py, CPython re/os.',
 }
@@ -62,14 +62,28 @@ def template_str(tmpl):
 
 
 def sink_regex(pat):
+    """spec-level sink tokens (spec/Dispatch.tla, SinkMatch) -> the regular expression handed to add_sink"""
     out = []
     for tok in pat:
-        if tok['k'] == 'lit':
-            out.append(re.escape(text(tok['s'])))
-        elif tok['k'] == 'digits':
-            out.append(r'(?P<%s>\d+)' % text(tok['s']))
+        k, t = tok['k'], text(tok['s'])
+        if k == 'lit':
+            out.append(re.escape(t))
+        elif k == 'digits':
+            out.append(r'(?P<%s>\d+)' % t)
+        elif k == 'seg':
+            out.append(r'(?P<%s>[^/]+)' % t)
+        elif k == 'udigits':
+            out.append(r'(\d+)')
+        elif k == 'useg':
+            out.append(r'([^/]+)')
+        elif k == 'ualt':
+            out.append('(' + '|'.join(re.escape(a) for a in t.split('|')) + ')')
+        elif k == 'optlit':
+            out.append('(' + re.escape(t) + ')?')
+        elif k == 'optrest':
+            out.append(r'(/.*)?$')
         else:
-            out.append(r'(?P<%s>[^/]+)' % text(tok['s']))
+            raise MachineryError('unknown sink token %r' % (tok,))
     return ''.join(out)
 
 
@@ -365,7 +379,8 @@ def run(ctx):
                         'CPython re (sink prefixes are handed to falcon as pattern strings)', 'os / tempfile']
     ctx.assumptions = ['route templates use literal and single-field segments and never two different field names at one '
                        'position (the router refuses those: C01)',
-                       'a group in a sink prefix is followed by the end of the pattern or by a literal starting with "/"',
+                       'sink prefixes stay inside the pattern language of Dispatch!WellFormedSink (run groups are followed by the end, a '
+                       'literal starting with "/" or a trailing optional group; optional groups are unnamed and last)',
                        'the outcome does not depend on the stack: the same table is demanded from falcon.App and '
                        'falcon.asgi.App',
                        'an unknown method on a routed path answering 400 is modelled as documented detail (D-clause)',
@@ -553,22 +568,43 @@ def gen_scenario(rng):
             pat = [{'k': 'lit', 's': cps(base)}]
             example = base
             g = 0
-            while rng.random() < 0.45 and g < 2:
+            # groups: named / unnamed runs and unnamed alternations, each introduced by a "/" literal
+            while rng.random() < 0.5 and g < 3:
                 g += 1
                 if not example.endswith('/'):
                     pat.append({'k': 'lit', 's': cps('/')})
                     example += '/'
-                if rng.random() < 0.5:
+                r = rng.random()
+                if r < 0.30:
                     pat.append({'k': 'digits', 's': cps('g%d' % g)})
                     example += rng.choice(('1', '22', '123'))
-                else:
+                elif r < 0.60:
                     pat.append({'k': 'seg', 's': cps('g%d' % g)})
                     example += rng.choice(LITS)
-                if rng.random() < 0.4:
+                elif r < 0.70:
+                    pat.append({'k': 'udigits', 's': []})
+                    example += rng.choice(('1', '22', '123'))
+                elif r < 0.80:
+                    pat.append({'k': 'useg', 's': []})
+                    example += rng.choice(LITS)
+                else:
+                    alts = rng.choice((('users', 'groups'), ('b', 'c'), ('1', '22', 'x1'), ('ab', 'c')))
+                    pat.append({'k': 'ualt', 's': cps('|'.join(alts))})
+                    example += rng.choice(alts)
+                if rng.random() < 0.3:
                     lit = '/' + rng.choice(LITS)
                     pat.append({'k': 'lit', 's': cps(lit)})
                     example += lit
-            # merge adjacent literals (the spec's tokens are what the regex is built from; either is fine)
+            # an optional unnamed trailing group: takes part for some paths only
+            r = rng.random()
+            if r < 0.15:
+                pat.append({'k': 'optrest', 's': []})
+                sinkpaths.append(example + rng.choice(('/', '/a', '/a/22', '/invoices/7')))
+            elif r < 0.30:
+                opt = '/' + rng.choice(LITS)
+                pat.append({'k': 'optlit', 's': cps(opt)})
+                sinkpaths.append(example + opt)
+                sinkpaths.append(example + opt + '/a')
             steps.append(EV('sink', id=n_calls, pat=pat))
             sinkpaths.append(example)
             sinkpaths.append(example + rng.choice(('', '/', '/a', 'b', '7')))
